@@ -41,12 +41,13 @@ def replay_c16(case):
         K = 1 if case["contr"] == "primitive" else rng.randint(2, 3)
         M = 1 if case["contr"] != "generalized" else 2
         cen = [cg.dyadic(rng.uniform(-1, 1) * 0.55, 8) for _ in range(3)] if case["geom"] != "coincident" else [[0, 0]] * 3
-        basis.append(cg.shell(rng, rng.randint(0, case.get("lmax", 4)), K=K, M=M, typ=ty, lo=0.3, hi=2.5, cen=cen))
+        basis.append(cg.shell(rng, rng.randint(1 if M > 1 else 0, case.get("lmax", 4)), K=K, M=M, typ=ty, lo=0.3, hi=2.5, cen=cen))
     shells = gb.make_basis(basis)
     # trapezoid rule: for a product exponent p <= 5 the aliasing error is ~ exp(-pi^2 / (p h^2)) = 5e-22 at h = 0.2, times
     # at most (pi / (p h))^(2l+2) ~ 1e5; the box cuts r^8 exp(-0.6 r^2) below 1e-13
     h = 0.2
-    ax = np.arange(-10.0, 10.0 + h / 2, h)
+    box = 9.0 if max(s_["l"] for s_ in basis) <= 3 else 10.0        # r^(2l) exp(-0.6 r^2) is below 1e-11 at the faces
+    ax = np.arange(-box, box + h / 2, h)
     m = gb.mod
     nb = sum(layout.size(s) for s in basis)
     A = np.array([[rng.uniform(-1, 1) for _ in range(nb)] for _ in range(nb)])
@@ -176,13 +177,19 @@ def run(pid, tier, seed, only_case=None):
         st = run_classes(ctx, 3, ["coincident", "spread"], ["primitive", "contracted", "generalized"])
         cases = [{"id": n + 1, "types": s["types"], "geom": s["geom"], "contr": s["contr"], "seed": seed} for n, s in enumerate(st)]
         if quick:
-            cases = [dict(c, lmax=3) for c in cases if len(c["types"]) <= 2 and (c["id"] + seed) % 3 == 0][:10]
+            small = [dict(c, lmax=3) for c in cases if len(c["types"]) <= 2]
+            # every mixed-type class with generalized shells (where the one- and two-index pipelines differ most), and a
+            # third of the remaining classes
+            must = [c for c in small if len(set(c["types"])) == 2 and c["contr"] == "generalized"]
+            rest = [c for c in small if c not in must and (c["id"] + seed) % 3 == 0]
+            cases = must + rest[:8]
     else:
         st = run_classes(ctx, 5, ["coincident", "near", "separated", "dependent"], ["primitive", "contracted", "generalized"])
         cases = []
         for n, s in enumerate(st):
             c = {"id": n + 1, "types": s["types"], "geom": s["geom"], "contr": s["contr"], "seed": seed}
-            c["eri"] = len(s["types"]) <= 3 and s["contr"] != "generalized" and (n + seed) % 2 == 0
+            c["eri"] = (len(s["types"]) <= 3 and s["contr"] != "generalized" and (n + seed) % 2 == 0) or \
+                (len(s["types"]) <= 2 and s["contr"] == "generalized")
             cases.append(c)
         if quick:
             cases = [c for c in cases if (c["id"] + seed) % 4 == 0 or len(c["types"]) <= 2]
